@@ -200,6 +200,9 @@ class PoolCtx:
         self.size_changed = False
         self.simple_func = None
         self.unnamed = []
+        self.limit = size
+        self.hi = 0
+        self.set_while_busy = False
 
 
 class Driver:
@@ -852,6 +855,8 @@ class Sim:
             cbs = pc.n_C + pc.cb_open
             self.states.add((pc.n_run, pc.n_C, min(pc.n_E0 + pc.n_E1, 5), pc.locked, pc.closed,
                              sum(1 for r in pc.reqs if r.work_left() and not r.spawner_done())))
+            if pc.size_changed:
+                self._check_limit(pc)
             if nr != pc.n_run:
                 self.violate("C02", "idle_running", f"idle: {pc.pool_str}.num_running={nr} but {pc.n_run} tasks are in flight")
             if not pc.size_changed and pc.size is not None and cbs == 0:
@@ -1620,6 +1625,82 @@ class Sim:
         if self.run_to_idle():
             self.check_idle()
         return True
+
+    # ---- pool_size (C15 only: C01 fixes the size while tasks are in flight)
+    def _op_size_get(self, step, ctx):
+        pc = self._pc(step)
+        if pc is None:
+            return False
+        import math
+        exp = math.inf if pc.limit is None else pc.limit
+        got = pc.pool.pool_size
+        self.ev("size_get", pc.idx, str(got))
+        if pc.n_run or pc.n_C:
+            self.stats["probe:size_read_while_running"] += 1
+            if got != exp:
+                self.violate("C15", "getter_while_running", f"pool_size={got} with {pc.n_run} tasks running, configured maximum {exp}")
+        elif got != exp:
+            self.violate("C15", "getter_idle", f"pool_size={got} on an empty pool, configured maximum {exp}",
+                         tainted=pc.set_while_busy)
+        return True
+
+    def _op_size_set(self, step, ctx):
+        pc = self._pc(step)
+        if pc is None:
+            return False
+        v = step["v"]
+        import math
+        val = math.inf if v is None else v
+        before = self._snapshot(pc)
+        old = pc.pool.pool_size
+        self.stats["op:set_size"] += 0
+        try:
+            pc.pool.pool_size = val
+        except ValueError as e:
+            if v is not None and v < 0:
+                if self._snapshot(pc) != before or pc.pool.pool_size != old:
+                    self.violate("C15", "negative_changed", f"pool_size={v} raised ValueError but changed the pool")
+                self.stats["fault:negative_size"] += 1
+                return True
+            self.violate("C15", "set_raised", f"pool_size={v} raised ValueError: {e}")
+            return True
+        except Exception as e:
+            self.violate("C15", "set_raised", f"pool_size={v} raised {type(e).__name__}: {e}")
+            return True
+        if v is not None and v < 0:
+            self.violate("C15", "negative_accepted", f"pool_size={v} accepted")
+            return True
+        pc.size_changed = True
+        if pc.n_run or pc.n_C:
+            self.stats["probe:size_set_while_running"] += 1
+            pc.set_while_busy = True
+        if any(r.work_left() for r in pc.reqs):
+            self.stats["probe:size_set_while_waiting"] += 1
+        pc.limit = v
+        pc.size = v
+        pc.hi = pc.n_run          # running count may stay above a lowered limit, but must not grow
+        if pc.live != self._live_before_set(pc):
+            pass
+        return True
+
+    def _live_before_set(self, pc):
+        return pc.live
+
+    def _check_limit(self, pc):
+        """C15 at an idle point after an assignment: the assigned value is the limit in force."""
+        lim = pc.limit
+        n = pc.n_run
+        work = any(r.work_left() and r.accepted_seq is not None for r in pc.reqs)
+        cbs = pc.n_C + pc.cb_open
+        if lim is not None:
+            allowed = max(lim, pc.hi)
+            if n > allowed:
+                self.violate("C15", "limit_in_force", f"idle: {n} tasks running after pool_size={lim} was assigned (at most {allowed} allowed)")
+            if work and cbs == 0 and n < lim:
+                self.violate("C15", "raise_does_not_wake", f"idle: {n} running < pool_size={lim} although requests are waiting for room")
+        elif work and cbs == 0:
+            self.violate("C15", "raise_does_not_wake", f"idle: unbounded pool_size assigned but requests are still waiting for room")
+        pc.hi = min(pc.hi, n) if lim is not None and n > lim else (lim if lim is not None else 0)
 
     def _op_read(self, step, ctx):
         self.check_counters("read")
